@@ -239,7 +239,7 @@ func (r *run) verifyRoot(n *Node, h uint32, fs *flatState) {
 		}
 		// paged FindStates (page size 1-3; prefix = the contract id, or extended by the first byte of a present key)
 		// must give the same sequence
-		if len(want) > 0 && r.tape.Chance(1, 2) {
+		if len(want) > 0 && (id > 0 || r.tape.Chance(1, 2)) {
 			page := 1 + r.tape.Choose(3)
 			if r.tape.Chance(1, 2) {
 				page = 1
@@ -269,6 +269,11 @@ func (r *run) verifyRoot(n *Node, h uint32, fs *flatState) {
 					}
 					r.out.Probes["c03_paged_find_key_prefix"]++
 				}
+			}
+			if page == 1 && len(wantP) >= 2 && len(wantP[0]) > len(prefix) && strings.HasPrefix(wantP[1], wantP[0]) {
+				// the first page ends on a stored key that sits on a branch below the end of the prefix: the next page's
+				// start equals the path between the prefix and that branch
+				r.out.Probes["c03_paged_find_start_equals_path"]++
 			}
 			var paged []string
 			var start []byte
